@@ -125,13 +125,17 @@ func (mdb *MonitoredDatabase) ProfileSearchMemory(query string) metrics.MemoryPr
 // convertToCacheOptions converts SearchOptions to cache.SearchOptions
 func (mdb *MonitoredDatabase) convertToCacheOptions(options SearchOptions) cache.SearchOptions {
 	return cache.SearchOptions{
-		Limit:          options.Limit,
-		ContextBoosts:  options.ContextBoosts,
-		PipelineOnly:   options.PipelineOnly,
-		PipelineBoost:  options.PipelineBoost,
-		UseFuzzy:       options.UseFuzzy,
-		FuzzyThreshold: options.FuzzyThreshold,
-		UseNLP:         options.UseNLP,
+		Limit:           options.Limit,
+		ContextBoosts:   options.ContextBoosts,
+		PipelineOnly:    options.PipelineOnly,
+		PipelineBoost:   options.PipelineBoost,
+		UseFuzzy:        options.UseFuzzy,
+		FuzzyThreshold:  options.FuzzyThreshold,
+		UseNLP:          options.UseNLP,
+		TopTermsCap:     options.TopTermsCap,
+		AllPlatforms:    options.AllPlatforms,
+		Platforms:       options.Platforms,
+		NoCrossPlatform: options.NoCrossPlatform,
 	}
 }
 
